@@ -378,6 +378,28 @@ func raceSolvers(sc *Script, first, timeoutMs int) (solveOut, []solveOut) {
 	return r, tried
 }
 
+// raceAll runs every solver on the script at once and returns the first definitive answer.
+func raceAll(sc *Script, timeoutMs int) (solveOut, []solveOut) {
+	cctx, cancel := context.WithCancel(context.Background())
+	defer cancel()
+	ch := make(chan solveOut, len(solvers))
+	for _, s := range solvers {
+		s := s
+		go func() { ch <- runSolver(cctx, s, sc.Text, timeoutMs, sc.Quant, false) }()
+	}
+	var tried []solveOut
+	var last solveOut
+	for range solvers {
+		x := <-ch
+		tried = append(tried, x)
+		last = x
+		if x.res == "unsat" || x.res == "sat" {
+			return x, tried
+		}
+	}
+	return last, tried
+}
+
 // discharge one obligation in stages, cheapest first:
 //   A  ground query, z3-new alone, short timeout
 //   C  the goal split into conjuncts, each through A and B
@@ -557,11 +579,14 @@ func dischargeStages(p *prepared, opt solveOpts, log *[]solveOut, top bool) stag
 	}
 	// E
 	if p.instantiated && p.full != nil && top {
+		// a model of the ground-instantiated query is only a candidate (instantiation is incomplete): the quantified
+		// query decides, with every solver in parallel and a generous limit so that machine load does not turn a
+		// provable obligation into an alarm
 		tmo := opt.timeoutMs
-		if sat != nil && tmo > 5000 {
-			tmo = 5000 // a candidate model exists: give the quantified query a short chance to refute it
+		if tmo < 45000 {
+			tmo = 45000
 		}
-		r, tried := raceSolvers(p.full, quickMs(opt), tmo)
+		r, tried := raceAll(p.full, tmo)
 		for i := range tried {
 			tried[i].solver += " (quantified)"
 		}
